@@ -294,9 +294,31 @@ def cacheLimit : Nat := 30000
 def isPrint (b : Nat) : Bool := 0x20 ≤ b ∧ b ≤ 0x7E
 
 /-- chunk kinds `aiff_read_header` interprets that this model does not -/
-def unmodelledMarkers : List (List Byte) :=
-  [mk4 "MARK", mk4 "INST", mk4 "APPL", mk4 "NAME", mk4 "AUTH", mk4 "ANNO", mk4 "COMT", mk4 "(c) ", mk4 "basc",
-   mk4 "CHAN", mk4 "NONE"]
+def unmodelledMarkers : List (List Byte) := [mk4 "basc", mk4 "CHAN", mk4 "NONE"]
+
+/-- the comment records of a COMT chunk: `count` times (time stamp 4, marker id 2, length 2, text).  Result: the
+    position after them; `none none` = a text longer than the scratch buffer (SFE_INTERNAL), `none` = a read fell
+    short (the byte accounting of the C code then depends on partial counts: not modelled) -/
+def comtLoop (bs : List Byte) : Nat → Nat → Option (Option Nat)
+  | 0, pos => some (some pos)
+  | n+1, pos =>
+    if pos + 8 > bs.length then none else
+    let len := ofBE ((bs.drop (pos + 6)).take 2)
+    if len + 1 > 8192 then some none else
+    if pos + 8 + len > bs.length then none else
+    comtLoop bs n (pos + 8 + len)
+
+/-- the marker records of a MARK chunk: up to `n` times while fewer than `size` bytes of the chunk were read
+    (id 2, position 4, Pascal string: count byte then an odd number of bytes).  none = a read fell short. -/
+def markLoop (bs : List Byte) (start size : Nat) : Nat → Nat → Option Nat
+  | 0, pos => some pos
+  | n+1, pos =>
+    if pos - start ≥ size then some pos else
+    if pos + 7 > bs.length then none else
+    let c := bs.getD (pos + 6) 0
+    let plen := if c % 2 = 1 then c else c + 1
+    if pos + 7 + plen > bs.length then none else
+    markLoop bs start size n (pos + 7 + plen)
 
 def endswap32 (v : Nat) : Nat := ofLE (beBytes 4 v)
 
@@ -386,6 +408,54 @@ def step (bs : List Byte) (s : Sc) : Step :=
   else if m = mk4 "SSND" then fin (readSsnd bs s pos size)
   else if m = mk4 "FVER" ∨ m = mk4 "SFX!" then
     if size ≥ 2 ^ 31 then .unm else fin (.cont { s with pos := pos + size, used := s.used + size, csize := size })
+  else if m = mk4 "(c) " ∨ m = mk4 "AUTH" ∨ m = mk4 "NAME" ∨ m = mk4 "ANNO" then
+    -- text chunks: the size limits differ by one or two (sizeof (scbuf), - 1, - 2)
+    let limit := if m = mk4 "(c) " then 8192 else if m = mk4 "AUTH" then 8191 else 8190
+    if size = 0 then fin (.cont { s with pos := pos, csize := 0 })
+    else if size ≥ limit then .fail
+    else
+      let (_, p) := rdN bs pos (size + size % 2)
+      fin (.cont { s with pos := p, used := s.used + size + size % 2, csize := size + size % 2 })
+  else if m = mk4 "APPL" then
+    if size = 0 then fin (.cont { s with pos := pos, csize := 0 })
+    else if size ≥ 8191 ∨ size < 4 then
+      -- skipped with chunk_size left odd: the next iteration jumps one more byte
+      if size + size % 2 ≥ 2 ^ 31 then .unm else
+      fin (.cont { s with pos := pos + size + size % 2, used := s.used + size + size % 2, csize := size })
+    else
+      let (_, p) := rdN bs pos 4
+      let (_, p) := rdN bs p (size + size % 2 - 4)
+      fin (.cont { s with pos := p, used := s.used + size + size % 2, csize := size + size % 2 })
+  else if m = mk4 "INST" then
+    if size ≠ 20 then
+      if size ≥ 2 ^ 31 then .unm else fin (.cont { s with pos := pos + size, used := s.used + size, csize := size })
+    else
+      let (_, p) := rdN bs pos 20          -- 6 + 2 + 6 + 6 bytes in eight reads
+      fin (.cont { s with pos := p, used := s.used + 20, csize := size })
+  else if m = mk4 "COMT" then
+    if size = 0 then fin (.cont { s with pos := pos, csize := 0 })
+    else if size ≥ 2 ^ 31 then .unm
+    else if pos + 2 > flen then .unm
+    else
+      let count := ofBE ((bs.drop pos).take 2)
+      match comtLoop bs count (pos + 2) with
+      | none => .unm
+      | some none => .fail
+      | some (some p) =>
+        if p - pos > size then .unm           -- `bytes` (unsigned) would wrap
+        else fin (.cont { s with pos := pos + size, used := s.used + size, csize := size })
+  else if m = mk4 "MARK" then
+    if size ≥ 2 ^ 31 ∨ size < 2 then .unm
+    else if pos + 2 > flen then .unm
+    else
+      let n := ofBE ((bs.drop pos).take 2)
+      if n > 2500 then fin (.cont { s with pos := pos + size, used := s.used + size, csize := size })
+      else
+        match markLoop bs pos size n (pos + 2) with
+        | none => .unm
+        | some p =>
+          if p - pos > size then .unm         -- chunk_size - bytesread (unsigned) would wrap
+          else fin (.cont { s with pos := pos + size, used := s.used + size, csize := size })
   else if unmodelledMarkers.contains m then .unm
   else if size ≥ 0xFFFF0000 then .stop s
   else if m.all isPrint then
